@@ -20,7 +20,7 @@ RULE = ("Cases = (op, matrix, parameter, copy flag). threshold_proportional: non
         "the cut, p*possible is exactly a half-integer, or fewer connections exist than requested; (absolute) some entry equals thr exactly; "
         "(absolute, also) some entry within 1e-9 relative of thr (thr one ulp / 1e-12 / 1e-10 relative away from a weight); "
         "whole matrix (and grid thr) multiplied by a power of two in 2^-400..2^400; (others) matrix has negative and zero entries. Distinct by hash of the case.")
-BOUNDS = {"n": "2..8", "p": "dyadic a/2^m (m<=6) and a/b (b<=40)", "weights": "k/4 (proportional), +-k/8 and floats (others)"}
+BOUNDS = {"n": "2..8 (and 20..60 in the large units)", "p": "dyadic a/2^m (m<=6) and a/b (b<=40)", "weights": "k/4 (proportional), +-k/8 and floats (others)"}
 # units additionally driven by libFuzzer coverage feedback through hypothesis.fuzz_one_input (bctverif/fuzz.py)
 FUZZ_UNITS = {"quick": ["threshold_proportional", "other-utilities"], "thorough": ["threshold_proportional", "other-utilities"]}
 MIN_NONTRIVIAL = {"quick": 300, "thorough": 3000}
@@ -201,8 +201,8 @@ def check(case, ctx):
 
 # ----------------------------------------------------------------------
 @st.composite
-def prop_cases(draw):
-    n = draw(st.integers(2, 8))
+def prop_cases(draw, nlo=2, nhi=8):
+    n = draw(st.integers(nlo, nhi))
     sym = draw(st.booleans())
     dens = draw(st.sampled_from(["sparse", "medium", "dense", "dense"]))
     A = draw(gen.er_adj(n, not sym, dens))
@@ -251,9 +251,9 @@ def prop_cases(draw):
 
 
 @st.composite
-def other_cases(draw):
+def other_cases(draw, nlo=1, nhi=8):
     op = draw(st.sampled_from(["absolute", "absolute", "binarize", "normalize", "invert", "wc-binarize", "wc-normalize", "wc-lengths", "wc-unknown"]))
-    n = draw(st.integers(1, 8))
+    n = draw(st.integers(nlo, nhi))
     directed = draw(st.booleans())
     A = draw(gen.er_adj(n, directed, draw(st.sampled_from(["sparse", "medium", "dense"]))))
     W = draw(gen.weights_for(A, draw(st.sampled_from(["signed", "signed", "float", "dyadic"])), directed))
@@ -316,4 +316,7 @@ def units(tier):
                    "{a/16, a=0..16} + {1/3,2/3,1/6,5/6,.1,.3,.7,.9}"),
         Unit("threshold_proportional", check, strategy=prop_cases, examples=(3000, 120000), shards=(8, 16)),
         Unit("other-utilities", check, strategy=other_cases, examples=(2000, 90000), shards=(8, 16)),
+        # counts in the hundreds / thousands: rounding of p*count, argsort on long tie runs, sparse support far below the request
+        Unit("threshold_proportional-n<=60", check, strategy=lambda: prop_cases(20, 60), examples=(160, 3200), shards=(8, 16)),
+        Unit("other-utilities-n<=60", check, strategy=lambda: other_cases(20, 60), examples=(120, 2400), shards=(4, 8)),
     ]
